@@ -333,6 +333,25 @@ pub fn gen_rcv(r: &mut Rng, thorough: bool, cx: &mut Ctx) {
             emit_rcv(cx, link, &meta, &toks);
         }
     }
+    // foreign but whole link frames with VALID COBS: decoded bodies of 0..=20 bytes whose data-length byte is anything (agreeing with the body
+    // size or not, 9..=255 included), then the two probes
+    for link in 1..3u64 {
+        for _ in 0..(if thorough { 1500 } else { 80 }) {
+            let mut toks = vec![];
+            for _ in 0..r.range(1, 4) {
+                let n = match r.below(4) { 0 => r.below(5) as usize, 1 => r.range(13, 14) as usize, _ => r.range(5, 20) as usize };
+                let mut body = r.bytes(n);
+                if n > 4 { body[4] = match r.below(4) { 0 => (n - 5) as u8, 1 => r.range(9, 15) as u8, 2 => r.range(0, 8) as u8, _ => r.below(256) as u8 }; }
+                let e = crate::s_frames::cobs_enc(&body);
+                toks.push(0); toks.push(e.len() as u64); toks.extend(e.iter().map(|b| *b as u64));
+            }
+            let p1 = gen_packet(r, 5); let p2 = gen_packet(r, 20);
+            let np = toks.len();
+            packet_tokens(link, &p1, &mut toks); packet_tokens(link, &p2, &mut toks);
+            let mut meta = vec![count_tokens(link, &toks[np..])]; show_packet(&p1, &mut meta); show_packet(&p2, &mut meta);
+            emit_rcv(cx, link, &meta, &toks);
+        }
+    }
 }
 
 // ---------- LNK ----------
